@@ -1,5 +1,6 @@
 """C16 — the checker never cries wolf and is exact about variable names."""
 import random
+import re
 
 import analysis_common as A
 import gen_check
@@ -15,13 +16,24 @@ def run(chk):
     cases, meta = [], []
     for i in range(n):
         c, g = gen_check.valid_script(chk.seed, i)
-        cases.append({"script": c["script"]})
+        cases.append({"script": c["script"], "_valid": True})
         meta.append(("valid", None))
         for _ in range(2):
             e = gen_check.name_edit(c["script"], rng)
             if e:
                 cases.append({"script": e[0]})
                 meta.append(("edit", e[1]))
+    # built-ins in the wrong place (an origin function as a statement, a statement function as an origin) with undeclared
+    # variables among their arguments: each undeclared use is reported once, whatever else is wrong with the call
+    valid_texts = [c["script"] for c in cases if c.get("_valid")]
+    for t in valid_texts[::5]:
+        for extra in ("\nbalance($zz_nope, USD)\n", "\nmeta(@a, $zz_nope)\noverdraft($zz_nope, $zz_other)\n", "\nbalance($zz_nope)\nset_tx_meta($zz_nope)\n"):
+            cases.append({"script": t.rstrip("\n") + extra})
+            meta.append(("edit", "misplaced-call"))
+        m_ = re.match(r"\s*vars\s*\{[ \t]*\n?", t)
+        decl = '  number $zz_o = set_tx_meta("k", $zz_nope)\n  monetary $zz_p = set_account_meta($zz_nope, "k", $zz_q)\n'
+        cases.append({"script": (t[:m_.end()] + decl + t[m_.end():]) if m_ else ("vars {\n" + decl + "}\n" + t)})
+        meta.append(("edit", "misplaced-origin"))
     # sizes: the same scripts with 12…257 more declared variables that nobody uses (each must be reported, nothing else)
     for i in range(0, len(cases), 29):
         pv = gen_check.pad_vars(cases[i]["script"], rng)
